@@ -302,8 +302,9 @@ def c14(tier, seed):
                        "spec": "ConeBarrier.tla", "cfg": "ConeBarrier.cfg", "case": case}
             res.violation("conebarrier-" + cls.replace(":", "_").replace("+", "_")[:70], payload, f"{len(evs)} cone evaluations violate {cls}", key=cls)
     # vacuity: both branches of the primal-dual scaling and all three kinds of event must have been seen
+    # (only meaningful on an accepted trace: rejected events are reported as they are)
     fam = meta.get("by_family", {})
-    if not (meta.get("pd_secant", 0) > 0 and meta.get("pd_fallback", 0) > 0 and fam.get("lattice_membership", 0) > 0
+    if v["ok"] and not (meta.get("pd_secant", 0) > 0 and meta.get("pd_fallback", 0) > 0 and fam.get("lattice_membership", 0) > 0
             and all(fam.get(f"{c}:{k}", 0) > 0 for c in ("Exp", "Pow", "GenPow") for k in ("calculus", "membership", "central", "near_boundary", "near_boundary_dual"))):
         raise ToolError(f"C14 recorder did not exercise every family: {meta}")
     res.coverage = {"states": nw["states"], "transitions": nw["transitions"], "evaluations": v["events"], "distinct_nontrivial": v["events"],
